@@ -784,3 +784,56 @@ def c14_r6(ctx):
                 else:
                     ctx.ok()
     ctx.need(n, "construction of bundle::NumberedIndentedLine")
+
+
+BYTE_OFFSET_SINKS = {  # callee name -> indices of the arguments that are byte offsets
+    "truncate": (1,), "split_at": (1,), "split_at_mut": (1,), "split_off": (1,), "insert": (1,), "insert_str": (1,), "remove": (1,),
+    "is_char_boundary": (1,), "drain": (1,), "replace_range": (1,), "get": (1,), "get_mut": (1,), "get_unchecked": (1,), "index": (1,), "index_mut": (1,),
+}
+
+
+@rule("C14.R7", floor=1)
+def c14_r7(ctx):
+    """Characters are not bytes: no byte offset into a string (truncate, split_at, slicing,
+    insert, drain ..) derives from a count of its characters (`chars().count()`); for every
+    non-ASCII name the two differ, so a path would be cut in the wrong place or the cut would
+    panic inside a multi-byte character."""
+    n_fns = 0
+    n_sinks = 0
+    for f in ctx.P.fns.values():
+        if f.body.get("in_test") or f.kind == "promoted" or f.body.get("derived"):
+            continue
+        fl = f.body["span"]["file"]
+        if not (fl.endswith("rule.rs") or fl.endswith("bundle.rs")):
+            continue
+        n_fns += 1
+        seeds = {}
+        for c in f.calls:
+            if c.name == "count" and c.args:
+                ao = f.origins_of_operand(c.args[0])
+                if any(any(st == ("iter", "chars") or (st[0] in ("iter", "adapt") and "char" in str(st[1])) for st in o[1:]) or (is_call(o) and "chars" in o[0][3]) for o in ao):
+                    seeds[c.dest["local"]] = c
+        T = f.tainted_locals(lambda l: l in seeds) if seeds else set()
+        for c in f.calls:
+            idxs = BYTE_OFFSET_SINKS.get(c.name)
+            if not idxs or not c.args:
+                continue
+            recv = c.args[0]
+            rty = f.local_ty(recv["place"]["local"])["s"] if recv["k"] in ("copy", "move") else ""
+            if "String" not in rty and "str" not in rty:
+                continue
+            n_sinks += 1
+            ctx.inst("byte-offset use %s in %s" % (c.name, f.id), c.where)
+            bad = False
+            for i in idxs:
+                if i < len(c.args) and c.args[i]["k"] in ("copy", "move") and c.args[i]["place"]["local"] in T:
+                    bad = True
+            if bad:
+                sc = next(iter(seeds.values()))
+                ctx.viol((f.id, "char-count-used-as-byte-offset", c.name), "`%s` is given an offset that derives from a count of characters (%s): for a non-ASCII string the cut lands elsewhere, or inside a character (panic)" % (c.name, sc.where), c.where)
+            else:
+                ctx.ok()
+    ctx.need(n_fns, "parser functions")
+    if not n_sinks:
+        ctx.inst("no byte-offset string operation in the parser modules (nothing to confuse)")
+        ctx.ok()
